@@ -7,8 +7,8 @@ use gimli::{DebugAbbrev, DebugInfo, EndianSlice, RunTimeEndian};
 
 pub struct C03;
 
-const NAME_POOL: [u16; 60] = [
-    0x01, 0x02, 0x03, 0x09, 0x0b, 0x0c, 0x0d, 0x10, 0x11, 0x12, 0x13, 0x17, 0x19, 0x1c, 0x20, 0x22, 0x2a, 0x2c, 0x2e, 0x2f, 0x31, 0x32, 0x33, 0x36, 0x37, 0x38, 0x39, 0x3a, 0x3b, 0x3e, 0x40, 0x42, 0x43, 0x46, 0x48, 0x49, 0x4a, 0x4c, 0x4d, 0x4e, 0x50, 0x51, 0x55, 0x57, 0x58, 0x59, 0x5e, 0x65, 0x71, 0x72, 0x73, 0x74, 0x79, 0x7e, 0x8c, 0x2131, 0x2132, 0x2133, 0x2007, 0x3fff,
+const NAME_POOL: [u16; 64] = [
+    0x01, 0x02, 0x03, 0x09, 0x0b, 0x0c, 0x0d, 0x10, 0x11, 0x12, 0x13, 0x17, 0x19, 0x1c, 0x20, 0x22, 0x2a, 0x2c, 0x2e, 0x2f, 0x31, 0x32, 0x33, 0x36, 0x37, 0x38, 0x39, 0x3a, 0x3b, 0x3e, 0x40, 0x42, 0x43, 0x46, 0x48, 0x49, 0x4a, 0x4c, 0x4d, 0x4e, 0x50, 0x51, 0x55, 0x57, 0x58, 0x59, 0x5e, 0x65, 0x71, 0x72, 0x73, 0x74, 0x79, 0x7e, 0x8c, 0x2131, 0x2132, 0x2133, 0x2007, 0x3fff, 0x2119, 0x2137, 0x2111, 0x2134,
 ];
 
 fn gen_payload(ch: &mut Choices, form: u16, cfg: &Cfg, depth: u32) -> AV {
